@@ -13,6 +13,15 @@
 #include "layout.h"
 #include "values.h"
 
+/* mpt++/array.cpp, item_group.cpp, graph.cpp and layout.cpp are compiled into this translation unit (harness flag
+ * -fno-sanitize=vptr): the item arrays of graph / layout keep their elements in C-made buffers (_mpt_buffer_alloc) whose
+ * C vtable UBSan's C++ vptr check rejects on the first member access; every other sanitizer check stays on.  The library
+ * objects of these files in libmpt++.a are then not pulled in by the linker. */
+#include "array.cpp"
+#include "item_group.cpp"
+#include "graph.cpp"
+#include "layout.cpp"
+
 using namespace mpt;
 
 typedef convertable h_conv_t;
@@ -42,6 +51,13 @@ struct xobj {
 	struct hobj h;
 	metatype *mt;
 	object *ob;
+	/* the concrete object, by kind */
+	layout::graph::axis *ax;
+	layout::line *li;
+	layout::text *tx;
+	layout::graph *gr;
+	layout::graph::world *wl;
+	layout *ly;
 };
 static int x_get(struct hobj *h, struct ::mpt::property *pr)
 {
@@ -51,28 +67,278 @@ static int x_set(struct hobj *h, const char *name, convertable *src)
 {
 	return static_cast<xobj *>(h->impl)->ob->set_property(name, src);
 }
-static xobj *x_new(int kind)
+static void x_bind(xobj *x)
+{
+	x->h.obj = x->ob;
+	x->h.source = x->mt;
+}
+/* kind token: axis[:flags] world[:cycles] line text graph layout */
+static xobj *x_new(int kind, const char *ktok)
 {
 	xobj *x = new xobj;
+	const char *arg = strchr(ktok, ':');
+	x->ax = 0; x->li = 0; x->tx = 0; x->gr = 0; x->wl = 0; x->ly = 0;
 	switch (kind) {
-	case K_AXIS: { layout::graph::axis *o = new layout::graph::axis; x->mt = o; x->ob = o; break; }
-	case K_LINE: { layout::line *o = new layout::line; x->mt = o; x->ob = o; break; }
-	case K_TEXT: { layout::text *o = new layout::text; x->mt = o; x->ob = o; break; }
-	case K_GRAPH: { layout::graph *o = new layout::graph; x->mt = o; x->ob = o; break; }
-	default: { layout::graph::world *o = new layout::graph::world; x->mt = o; x->ob = o; break; }
+	case K_AXIS: x->ax = arg ? new layout::graph::axis((AxisFlags) atoi(arg + 1)) : new layout::graph::axis; x->mt = x->ax; x->ob = x->ax; break;
+	case K_LINE: x->li = new layout::line; x->mt = x->li; x->ob = x->li; break;
+	case K_TEXT: x->tx = new layout::text; x->mt = x->tx; x->ob = x->tx; break;
+	case K_GRAPH: x->gr = new layout::graph; x->mt = x->gr; x->ob = x->gr; break;
+	case K_LAYOUT: x->ly = new layout; x->mt = x->ly; x->ob = x->ly; break;
+	default: x->wl = arg ? new layout::graph::world(atoi(arg + 1)) : new layout::graph::world; x->mt = x->wl; x->ob = x->wl; break;
 	}
 	x->h.kind = kind;
 	x->h.get = x_get;
 	x->h.set = x_set;
-	x->h.obj = x->ob;
-	x->h.source = x->mt;
 	x->h.impl = x;
+	x_bind(x);
 	return x;
 }
 static void x_free(xobj *x)
 {
 	x->mt->unref();
 	delete x;
+}
+
+/* symbolic name of a conversion result */
+static void x_retname(xobj *x, int r)
+{
+	int me = 0, cptr = 0;
+	switch (x->h.kind) {
+	case K_AXIS: me = type_properties<layout::graph::axis *>::id(true); cptr = mpt_axis_pointer_typeid(); break;
+	case K_LINE: me = type_properties<layout::line *>::id(true); cptr = 0; break;
+	case K_TEXT: me = type_properties<layout::text *>::id(true); cptr = mpt_text_pointer_typeid(); break;
+	case K_GRAPH: me = type_properties<layout::graph *>::id(true); cptr = mpt_graph_pointer_typeid(); break;
+	case K_WORLD: me = type_properties<layout::graph::world *>::id(true); cptr = mpt_world_pointer_typeid(); break;
+	default: me = type_properties<layout *>::id(true); cptr = 0; break;
+	}
+	if (r < 0) vh_add("E%d", -r);
+	else if (r == me) vh_add("me");
+	else if (cptr > 0 && r == cptr) vh_add("cptr");
+	else if (r == TypeObjectPtr) vh_add("obj");
+	else if (r == TypeMetaPtr) vh_add("meta");
+	else if (r == TypeArray) vh_add("arr");
+	else if (r == TypeCollectionPtr) vh_add("coll");
+	else if (r == mpt_color_typeid()) vh_add("color");
+	else if (r == mpt_lattr_typeid()) vh_add("lattr");
+	else if (r == mpt_line_typeid()) vh_add("line");
+	else if (r == type_properties<group *>::id(true)) vh_add("grp");
+	else vh_add("n%d", r);
+}
+
+static int x_op(struct hobj *ha, struct hobj *hb, const char *op, int ntok, char **tok, int *tp)
+{
+	int t = *tp;
+	(void) ntok;
+	if (!strcmp(op, "clone")) {
+		xobj *x = static_cast<xobj *>((tok[t][0] == 'b' ? hb : ha)->impl);
+		metatype *old = x->mt;
+		switch (x->h.kind) {
+		case K_AXIS: x->ax = x->ax->clone(); x->mt = x->ax; x->ob = x->ax; break;
+		case K_LINE: x->li = x->li->clone(); x->mt = x->li; x->ob = x->li; break;
+		case K_TEXT: x->tx = x->tx->clone(); x->mt = x->tx; x->ob = x->tx; break;
+		case K_GRAPH: x->gr = x->gr->clone(); x->mt = x->gr; x->ob = x->gr; break;
+		case K_WORLD: x->wl = x->wl->clone(); x->mt = x->wl; x->ob = x->wl; break;
+		default: *tp = t + 1; vh_tok("?clone"); return 1;
+		}
+		x_bind(x);
+		old->unref();
+		*tp = t + 1;
+		vh_tok("K");
+		return 1;
+	}
+	if (!strcmp(op, "cpy")) {
+		/* struct level: copy construction from the other object, then copy assignment */
+		xobj *x = static_cast<xobj *>((tok[t][0] == 'b' ? hb : ha)->impl);
+		xobj *o = static_cast<xobj *>((tok[t][0] == 'b' ? ha : hb)->impl);
+		switch (x->h.kind) {
+		case K_AXIS: { ::mpt::axis tmp(*static_cast< ::mpt::axis *>(o->ax)); *static_cast< ::mpt::axis *>(x->ax) = tmp; break; }
+		case K_LINE: { ::mpt::line tmp(*static_cast< ::mpt::line *>(o->li)); *static_cast< ::mpt::line *>(x->li) = tmp; break; }
+		case K_TEXT: { ::mpt::text tmp(*static_cast< ::mpt::text *>(o->tx)); *static_cast< ::mpt::text *>(x->tx) = tmp; break; }
+		case K_GRAPH: { ::mpt::graph tmp(*static_cast< ::mpt::graph *>(o->gr)); *static_cast< ::mpt::graph *>(x->gr) = tmp; break; }
+		case K_WORLD: { ::mpt::world tmp(*static_cast< ::mpt::world *>(o->wl)); *static_cast< ::mpt::world *>(x->wl) = tmp; break; }
+		default: *tp = t + 1; vh_tok("?cpy"); return 1;
+		}
+		*tp = t + 1;
+		vh_tok("K");
+		return 1;
+	}
+	if (!strcmp(op, "cset")) {
+		/* direct C++ setters: cset <tgt> <value|font|alias|lfont|meta> <text> */
+		xobj *x = static_cast<xobj *>((tok[t][0] == 'b' ? hb : ha)->impl);
+		const char *which = tok[t + 1];
+		char *txt = h_text(tok[t + 2]);
+		int r = -1;
+		if (x->tx && !strcmp(which, "value")) r = x->tx->set_value(txt);
+		else if (x->tx && !strcmp(which, "font")) r = x->tx->set_font(txt);
+		else if (x->wl && !strcmp(which, "alias")) r = x->wl->set_alias(txt);
+		else if (x->ly && !strcmp(which, "alias")) r = x->ly->set_alias(txt);
+		else if (x->ly && !strcmp(which, "lfont")) r = x->ly->set_font(txt);
+		free(txt);
+		*tp = t + 3;
+		if (r < 0) vh_tok("?cset"); else vh_tok("B%d", r);
+		return 1;
+	}
+	if (!strcmp(op, "lreset")) {
+		xobj *x = static_cast<xobj *>((tok[t][0] == 'b' ? hb : ha)->impl);
+		*tp = t + 1;
+		if (!x->ly) { vh_tok("?lreset"); return 1; }
+		vh_tok("B%d", (int) x->ly->reset());
+		return 1;
+	}
+	if (!strcmp(op, "conv")) {
+		/* conv <tgt> <request>: the object's convert() */
+		xobj *x = static_cast<xobj *>((tok[t][0] == 'b' ? hb : ha)->impl);
+		const char *rq = tok[t + 1];
+		int r;
+		*tp = t + 2;
+		vh_tok("V");
+		if (!strcmp(rq, "fmt0")) {
+			const uint8_t *fmt = 0;
+			r = x->mt->convert(0, &fmt);
+			x_retname(x, r);
+			vh_add(":");
+			if (fmt) { while (*fmt) vh_add("%02x", *fmt++); }
+			return 1;
+		}
+		if (!strcmp(rq, "color")) {
+			color c(1, 2, 3, 4);
+			r = x->mt->convert(mpt_color_typeid(), &c);
+			x_retname(x, r);
+			vh_add(":%02x%02x%02x%02x", c.alpha, c.red, c.green, c.blue);
+			return 1;
+		}
+		if (!strcmp(rq, "lattr")) {
+			lineattr l(9, 9, 9, 9);
+			r = x->mt->convert(mpt_lattr_typeid(), &l);
+			x_retname(x, r);
+			vh_add(":%02x%02x%02x%02x", l.style, l.width, l.symbol, l.size);
+			return 1;
+		}
+		if (!strcmp(rq, "line")) {
+			::mpt::line l;
+			r = x->mt->convert(mpt_line_typeid(), &l);
+			x_retname(x, r);
+			vh_add(":%02x%02x%02x%02x", l.color.alpha, l.color.red, l.color.green, l.color.blue);
+			{ uint32_t b; memcpy(&b, &l.from.x, 4); vh_add(",%08lx", (unsigned long) b); }
+			return 1;
+		}
+		{
+			void *p = 0;
+			type_t ty = 0;
+			const void *want = 0;
+			if (!strcmp(rq, "me")) {
+				switch (x->h.kind) {
+				case K_AXIS: ty = type_properties<layout::graph::axis *>::id(true); want = x->ax; break;
+				case K_LINE: ty = type_properties<layout::line *>::id(true); want = x->li; break;
+				case K_TEXT: ty = type_properties<layout::text *>::id(true); want = x->tx; break;
+				case K_GRAPH: ty = type_properties<layout::graph *>::id(true); want = x->gr; break;
+				case K_WORLD: ty = type_properties<layout::graph::world *>::id(true); want = x->wl; break;
+				default: ty = type_properties<layout *>::id(true); want = x->ly; break;
+				}
+			}
+			else if (!strcmp(rq, "cptr")) {
+				switch (x->h.kind) {
+				case K_AXIS: ty = mpt_axis_pointer_typeid(); want = static_cast< ::mpt::axis *>(x->ax); break;
+				case K_TEXT: ty = mpt_text_pointer_typeid(); want = static_cast< ::mpt::text *>(x->tx); break;
+				case K_GRAPH: ty = mpt_graph_pointer_typeid(); want = static_cast< ::mpt::graph *>(x->gr); break;
+				case K_WORLD: ty = mpt_world_pointer_typeid(); want = static_cast< ::mpt::world *>(x->wl); break;
+				default: ty = mpt_axis_pointer_typeid(); want = 0; break;
+				}
+			}
+			else if (!strcmp(rq, "obj")) { ty = TypeObjectPtr; want = x->ob; }
+			else if (!strcmp(rq, "meta")) { ty = TypeMetaPtr; want = x->mt; }
+			else if (!strcmp(rq, "grp")) { ty = type_properties<group *>::id(true); want = 0; }
+			else if (!strcmp(rq, "coll")) { ty = TypeCollectionPtr; want = 0; }
+			else if (!strcmp(rq, "otherptr")) { ty = x->h.kind == K_AXIS ? mpt_world_pointer_typeid() : mpt_axis_pointer_typeid(); want = 0; }
+			else if (!strcmp(rq, "str")) { ty = 's'; want = 0; }
+			else { ty = 0x7e; want = 0; }
+			r = x->mt->convert(ty, &p);
+			x_retname(x, r);
+			if (r >= 0 && want) vh_add(p == want ? ":self" : ":other");
+			/* query mode (no target) gives the same verdict */
+			{
+				int q = x->mt->convert(ty, 0);
+				vh_add((q < 0) == (r < 0) ? "" : ":q!");
+			}
+			return 1;
+		}
+	}
+	if (!strcmp(op, "gadd") || !strcmp(op, "gitem") || !strcmp(op, "gbind") || !strcmp(op, "gtr")) {
+		xobj *x = static_cast<xobj *>((tok[t][0] == 'b' ? hb : ha)->impl);
+		if (!x->gr) { vh_tok("?graph"); *tp = ntok; return 1; }
+		if (!strcmp(op, "gadd")) {
+			/* gadd <tgt> <axis|world> <name|N>: a new default axis / world bound directly */
+			int isnull;
+			char *name = h_name(tok[t + 2], &isnull);
+			void *it;
+			if (!strcmp(tok[t + 1], "axis")) it = x->gr->add_axis(0, name);
+			else it = x->gr->add_world(0, name);
+			free(name);
+			*tp = t + 3;
+			vh_tok(it ? "K" : "R");
+		}
+		else if (!strcmp(op, "gitem")) {
+			/* gitem <tgt> <type> <name> <property|N> <T text>: create an item of the group, assign one property
+			 * through its object interface, append it under the name */
+			int isnull, pnull;
+			char *name = h_name(tok[t + 2], &isnull);
+			char *type = h_text(tok[t + 1]);
+			char *prop = h_name(tok[t + 3], &pnull);
+			char *ptxt = h_text(tok[t + 4] + 1);
+			metatype *mt = x->gr->create(type);
+			*tp = t + 5;
+			if (!mt) vh_tok("R");
+			else {
+				identifier id;
+				int r;
+				object *io = *mt;
+				if (io && !pnull) mpt_object_set_string(io, prop, ptxt, 0);
+				if (name) id.set_name(name);
+				r = x->gr->append(&id, mt);
+				if (r < 0) { mt->unref(); vh_tok("E%d", -r); }
+				else vh_tok("K%d", r);
+			}
+			free(type);
+			free(name);
+			free(prop);
+			free(ptxt);
+		}
+		else if (!strcmp(op, "gbind")) {
+			int r = x->gr->bind(0, 0);
+			*tp = t + 1;
+			if (r < 0) vh_tok("E%d", -r); else vh_tok("K%d", r);
+		}
+		else {
+			bool r = x->gr->update_transform(-1);
+			*tp = t + 1;
+			vh_tok("T%d:%d,%d,%d", (int) r, x->gr->transform_flags(0), x->gr->transform_flags(1), x->gr->transform_flags(2));
+		}
+		/* bound axes and worlds: name and, for axes, the interval/begin properties of the bound object */
+		vh_add(":");
+		{
+			span<const item<layout::graph::axis> > ax = x->gr->axes();
+			for (const item<layout::graph::axis> *i = ax.begin(); i != ax.end(); ++i) {
+				const char *n = i->name();
+				layout::graph::axis *a = i->instance();
+				vh_add("a(");
+				if (n) vh_hex(n, strlen(n)); else vh_add("~");
+				if (a) { uint64_t b; memcpy(&b, &a->::mpt::axis::begin, 8); vh_add(";%016llx;%u;%u", (unsigned long long) b, (unsigned) a->intv, (unsigned) a->format); }
+				vh_add(")");
+			}
+			span<const item<layout::graph::data> > wl = x->gr->worlds();
+			for (const item<layout::graph::data> *i = wl.begin(); i != wl.end(); ++i) {
+				const char *n = i->name();
+				layout::graph::data *d = i->instance();
+				layout::graph::world *w = d ? d->world.instance() : 0;
+				vh_add("w(");
+				if (n) vh_hex(n, strlen(n)); else vh_add("~");
+				if (w) vh_add(";%u", (unsigned) w->cyc);
+				vh_add(")");
+			}
+		}
+		return 1;
+	}
+	return 0;
 }
 
 static void run_col(int ntok, char **tok)
@@ -112,7 +378,7 @@ static void run_case(int ntok, char **tok)
 	if (!strcmp(tok[2], "col")) { run_col(ntok, tok); return; }
 	if ((kind = h_kind(tok[2])) < 0) { vh_tok("?kind"); return; }
 	{
-		xobj *a = x_new(kind), *b = x_new(kind);
+		xobj *a = x_new(kind, tok[2]), *b = x_new(kind, tok[2]);
 		h_run_object_case(ntok, tok, &a->h, &b->h);
 		x_free(a);
 		x_free(b);
@@ -123,5 +389,6 @@ int main(int argc, char **argv)
 {
 	mpt_color_typeid(); mpt_lattr_typeid(); mpt_fpoint_typeid(); mpt_line_typeid();
 	mpt_axis_pointer_typeid(); mpt_text_pointer_typeid(); mpt_graph_pointer_typeid(); mpt_world_pointer_typeid();
+	h_xop = x_op;
 	return vh_main(argc, argv, run_case);
 }
